@@ -8,6 +8,7 @@
 //                           mj_jacDot, and the frames recomputed after mj_integratePos perturbations
 //                           of +-eps along every dof and along qvel
 //   E seed feat nbody rep   constraint rows: efc_J (dense) and efc_pos at q and at q +- eps e_k
+//   Q k                     fixed corpus: joint / tendon equalities with coupling polynomials (coefficient pattern k)
 //   R                       a fixed tendon that lists the same joint twice must be rejected by mj_compile
 #include "mjgen.h"
 #include "engine/engine_core_util.h"   // mj_jacSparse, mj_bodyChain are not part of the public header
@@ -84,6 +85,18 @@ static mjModel* get_model(unsigned long long seed, unsigned feat, int nbody) {
       if (!toworld) pool[npool++] = fb;
     }
   }
+  // tendon equalities (mjgen has none): t0 alone, t0 coupled to t1, t1 coupled to t0
+  if ((feat & MJG_EQUALITY) && (feat & MJG_TENDON) && mjs_findElement(s, mjOBJ_TENDON, "t0")) {
+    int two = mjs_findElement(s, mjOBJ_TENDON, "t1") != NULL;
+    for (int k = 0; k < (two ? 3 : 1); k++) {
+      mjsEquality* e = mjs_addEquality(s, NULL); char nm[16]; snprintf(nm, sizeof(nm), "et%d", k); mjs_setName(e->element, nm);
+      e->type = mjEQ_TENDON; e->objtype = mjOBJ_TENDON;
+      mjs_setString(e->name1, k == 2 ? "t1" : "t0");
+      if (k >= 1) mjs_setString(e->name2, k == 2 ? "t0" : "t1");
+      e->data[0] = mjg_range(&R, -0.1, 0.1); e->data[1] = 1;
+      e->active = 1;
+    }
+  }
   M = mj_compile(s, NULL);
   if (!M) fprintf(stderr, "c07: compile failed: %s\n", mjs_getError(s));
   mj_deleteSpec(s);
@@ -156,9 +169,30 @@ static void efc_block(mjModel* m, mjData* d) {
   p1("nv", nv); p1("nefc", d->nefc); p1("ncon", d->ncon);
   pi("efc_type", d->efc_type, d->nefc); pi("efc_id", d->efc_id, d->nefc);
   pd("efc_pos", d->efc_pos, d->nefc); pd("efc_margin", d->efc_margin, d->nefc); pd("efc_J", d->efc_J, d->nefc * nv);
-  pi("eq_type", m->eq_type, m->neq);
-  mjtNum eps = 1e-6; pd("eps", &eps, 1);
+  pi("eq_type", m->eq_type, m->neq); pi("eq_obj1id", m->eq_obj1id, m->neq); pi("eq_obj2id", m->eq_obj2id, m->neq);
+  pd("eq_data", m->eq_data, mjNEQDATA * m->neq); p1("neqdata", mjNEQDATA);
+  pi("jnt_qposadr", m->jnt_qposadr, m->njnt); pi("jnt_dofadr", m->jnt_dofadr, m->njnt); pd("qpos", d->qpos, nq); pd("qpos0", m->qpos0, nq);
+  pd("ten_length", d->ten_length, m->ntendon); pd("tendon_length0", m->tendon_length0, m->ntendon);
+  { // dense copy of ten_J
+    mjtNum* tj = (mjtNum*)calloc((size_t)m->ntendon * nv + 1, sizeof(mjtNum));
+    for (int t = 0; t < m->ntendon; t++) for (int k = 0; k < m->ten_J_rownnz[t]; k++)
+      tj[t * nv + m->ten_J_colind[m->ten_J_rowadr[t] + k]] += d->ten_J[m->ten_J_rowadr[t] + k];
+    pd("ten_J", tj, m->ntendon * nv); free(tj);
+  }
   memcpy(q0, d->qpos, sizeof(mjtNum) * nq);
+  { // the same rows with the sparse constraint Jacobian, densified here
+    int nefc_dense = d->nefc;
+    m->opt.jacobian = mjJAC_SPARSE;
+    mj_forward(m, d);
+    p1("nefc_sparse", d->nefc);
+    mjtNum* js = (mjtNum*)calloc((size_t)d->nefc * nv + 1, sizeof(mjtNum));
+    for (int r = 0; r < d->nefc; r++) for (int k = 0; k < d->efc_J_rownnz[r]; k++)
+      js[r * nv + d->efc_J_colind[d->efc_J_rowadr[r] + k]] += d->efc_J[d->efc_J_rowadr[r] + k];
+    pd("efc_Jsp", js, d->nefc * nv); pi("sp_efc_type", d->efc_type, d->nefc); pi("sp_efc_id", d->efc_id, d->nefc);
+    free(js); (void)nefc_dense;
+    m->opt.jacobian = mjJAC_DENSE;
+  }
+  mjtNum eps = 1e-6; pd("eps", &eps, 1);
   for (int k = 0; k < nv; k++) for (int sg = 0; sg < 2; sg++) {
     for (int i = 0; i < nv; i++) dv[i] = (i == k ? 1.0 : 0.0);
     memcpy(d->qpos, q0, sizeof(mjtNum) * nq);
@@ -194,12 +228,49 @@ static void repeated_joint_tendon(void) {
   mj_deleteSpec(s);
 }
 
+// fixed corpus for coupling polynomials: a 4-joint arm (hinge, slide, hinge, slide), two fixed tendons, joint and tendon
+// equalities with one and two objects; variant k selects which of the coefficients c1..c4 are non-zero
+static void eq_poly_corpus(int k) {
+  static const unsigned masks[6] = { 0x1F, 0x11, 0x15, 0x09, 0x03, 0x1E };
+  unsigned mask = masks[k % 6];
+  mjSpec* s = mj_makeSpec();
+  mjsBody* parent = mjs_findBody(s, "world");
+  for (int i = 0; i < 4; i++) {
+    mjsBody* b = mjs_addBody(parent, NULL);
+    b->pos[0] = 0.2; b->pos[2] = 0.1 * i;
+    mjsJoint* j = mjs_addJoint(b, NULL); char nm[16]; snprintf(nm, sizeof(nm), "q%d", i); mjs_setName(j->element, nm);
+    j->type = (i % 2) ? mjJNT_SLIDE : mjJNT_HINGE; j->axis[0] = 0.3; j->axis[1] = (i % 2) ? 1 : -0.5; j->axis[2] = 1;
+    if (i == 1) j->ref = 0.2;
+    mjsGeom* g = mjs_addGeom(b, NULL); g->type = mjGEOM_SPHERE; g->size[0] = 0.05; g->contype = 0; g->conaffinity = 0;
+    parent = b;
+  }
+  mjsTendon* t0 = mjs_addTendon(s, NULL); mjs_setName(t0->element, "t0"); mjs_wrapJoint(t0, "q0", 0.7); mjs_wrapJoint(t0, "q1", -1.3);
+  mjsTendon* t1 = mjs_addTendon(s, NULL); mjs_setName(t1->element, "t1"); mjs_wrapJoint(t1, "q2", 1.1); mjs_wrapJoint(t1, "q3", 0.4); mjs_wrapJoint(t1, "q0", -0.6);
+  const char* pairs[6][3] = { {"J", "q0", "q2"}, {"J", "q3", "q1"}, {"J", "q1", NULL}, {"T", "t0", "t1"}, {"T", "t1", "t0"}, {"T", "t1", NULL} };
+  for (int e = 0; e < 6; e++) {
+    mjsEquality* q = mjs_addEquality(s, NULL);
+    q->type = pairs[e][0][0] == 'J' ? mjEQ_JOINT : mjEQ_TENDON; q->objtype = pairs[e][0][0] == 'J' ? mjOBJ_JOINT : mjOBJ_TENDON;
+    mjs_setString(q->name1, pairs[e][1]); if (pairs[e][2]) mjs_setString(q->name2, pairs[e][2]);
+    static const double c[5] = { 0.05, -0.8, 0.6, 1.2, -0.9 };
+    for (int i = 0; i < 5; i++) q->data[i] = (mask & (1u << i)) ? c[i] * (1 + 0.1 * e) : 0;
+    q->active = 1;
+  }
+  mjModel* m = mj_compile(s, NULL);
+  if (!m) { printf("ERR compile %s\n", mjs_getError(s)); mj_deleteSpec(s); return; }
+  mjData* d = mj_makeData(m);
+  static const double q0[4] = { 0.37, -0.21, -0.64, 0.45 };
+  for (int i = 0; i < 4; i++) d->qpos[i] = q0[i] * (1 + 0.2 * (k / 6));
+  if (MJG_TRY) { efc_block(m, d); MJG_END; } else printf("ERR 2 %s\n", mjg_last_error);
+  mj_deleteData(d); mj_deleteModel(m); mj_deleteSpec(s);
+}
+
 int main(void) {
   mjg_install_handlers();
   char* line = NULL; size_t cap = 0;
   while (getline(&line, &cap, stdin) > 0) {
     char* p = line; char op = *p++;
     if (op == 'R') { repeated_joint_tendon(); printf("END\n"); fflush(stdout); continue; }
+    if (op == 'Q') { eq_poly_corpus((int)strtol(p, &p, 10)); printf("END\n"); fflush(stdout); continue; }
     unsigned long long seed = strtoull(p, &p, 10); unsigned feat = (unsigned)strtoul(p, &p, 10);
     int nbody = (int)strtol(p, &p, 10); int rep = (int)strtol(p, &p, 10);
     mjModel* m = get_model(seed, feat, nbody);
@@ -295,6 +366,17 @@ int main(void) {
         mj_resetData(m, d);
         mjg_random_state(m, d, &r, 1.0);
         memset(d->qfrc_applied, 0, sizeof(mjtNum) * nv); memset(d->xfrc_applied, 0, sizeof(mjtNum) * 6 * m->nbody);
+        // coupling polynomials of joint / tendon equalities: every zero / non-zero combination of the five coefficients
+        for (int e = 0; e < m->neq; e++) {
+          d->eq_active[e] = 1;
+          if (m->eq_type[e] != mjEQ_JOINT && m->eq_type[e] != mjEQ_TENDON) continue;
+          unsigned mask = (unsigned)((7 * e + 5 * rep + seed) % 32);
+          if (rep % 2 == 0) mask |= 16;                     // the highest (quartic) term present in every second request
+          for (int k = 0; k < 5; k++) {
+            mjtNum c = (k == 0) ? mjg_range(&r, -0.1, 0.1) : mjg_range(&r, 0.3, 1.5) * (mjg_chance(&r, 0.5) ? -1 : 1);
+            m->eq_data[mjNEQDATA * e + k] = (mask & (1u << k)) ? c : 0;
+          }
+        }
         efc_block(m, d);
       } else err = 1;
       MJG_END;
